@@ -278,8 +278,13 @@ static void caseC06(uint64_t idx, vh::Rng& g)
 			for (size_t s = 0; s < al.rank.size(); ++s) { RRule r; r.sym = static_cast<int>(s); r.ch.assign(al.rank[s], 0); r.par = 0; a.rules.insert(r); }
 		}
 	}
+	CaseAlphabet ca(al); Aut A = mkExpl(a, ca); maybeDerive(g, A, a, ca, kind);
 	R->desc(caseText(al, a)); R->count("gen:" + kind);
-	CaseAlphabet ca(al); Aut A = mkExpl(a, ca);
+	int rounds = g.chance(1, 4) ? 2 : 1;   // a quarter of the cases: the same object again after in-place modification
+	for (int round = 0; round < rounds; ++round)
+	{
+	std::string C06 = round ? "C06/after-in-place-mutation" : "C06";
+	if (round) { mutateInPlace(g, al, A, a, ca); R->desc(caseText(al, a) + "(modified in place)"); R->count("after-in-place-mutation"); R->extraEvaluation(); }
 	try
 	{
 		R->phase("Complement");
@@ -319,14 +324,15 @@ static void caseC06(uint64_t idx, vh::Rng& g)
 		{
 			bool dirty = J.acc(m, 2);
 			if (!dirty) { if (J.acc(m, 0)) accSome = true; else rejSome = true; }
-			if (!dirty && J.acc(m, 0) == J.acc(m, 1) && !bad) { bad = true; R->violation(J.acc(m, 0) ? "C06/both-accept" : "C06/neither-accepts", "a tree over S is accepted by " + std::string(J.acc(m, 0) ? "both" : "neither")); }
-			if (dirty && J.acc(m, 1) && !bad) { bad = true; R->violation("C06/accepts-outside-alphabet", "the complement accepts a tree using a symbol outside S"); }
+			if (!dirty && J.acc(m, 0) == J.acc(m, 1) && !bad) { bad = true; R->violation(C06 + (J.acc(m, 0) ? "/both-accept" : "/neither-accepts"), "a tree over S is accepted by " + std::string(J.acc(m, 0) ? "both" : "neither")); }
+			if (dirty && J.acc(m, 1) && !bad) { bad = true; R->violation(C06 + "/accepts-outside-alphabet", "the complement accepts a tree using a symbol outside S"); }
 		}
 		R->count(accSome ? (rejSome ? "lang:proper" : "lang:universal") : "lang:empty");
 		if (accSome && rejSome) { R->nontrivial(caseHash(al, a)); if (R->wantSample()) R->sample(kind + "\n" + caseText(al, a)); }
-		if (readExpl(A, &ca) != a) R->violation("C06/operand-changed", "");
+		if (readExpl(A, &ca) != a) R->violation(C06 + "/operand-changed", "");
 	}
-	catch (std::exception& ex) { R->violation("C06/exception", ex.what()); }
+	catch (std::exception& ex) { R->violation(C06 + "/exception", ex.what()); return; }
+	}
 }
 
 // ======================================================================= C02
